@@ -163,8 +163,11 @@ class Reduction:
 
 
 class Explorer:
-    def __init__(self, ctx, spec, oracle=None, self_attrs=None):
+    def __init__(self, ctx, spec, oracle=None, self_attrs=None, on_accept=None):
         self.ctx, self.spec, self.oracle = ctx, spec, oracle
+        self.on_accept = on_accept
+        if on_accept is None and oracle is not None and hasattr(oracle, "on_accept"):
+            self.on_accept = oracle.on_accept
         self.gm, self.lm = ctx.grammar, ctx.lexer
         self.model = ctx.model
         self.action, self.goto, self.prods = self.gm.action, self.gm.goto, self.gm.prods
@@ -341,7 +344,8 @@ class Explorer:
         try:
             return ("value", _zip(results))
         except _ShapeMismatch as sm:
-            self.add("O-uniform", f"{self.spec.name}: {prod.func} handles the words of one class in structurally different ways on `{prod}`",
+            rule = "O-case" if self._case_sensitive(prod, f, vals0, below) else "O-uniform"
+            self.add(rule, f"{self.spec.name}: {prod.func} handles the words of one class in structurally different ways on `{prod}`",
                      f"{sm}; the fragment treats these words as equivalent (same kind of name / number / keyword spelling): ({why[:100]})", shown)
             return ("finding",)
 
@@ -458,6 +462,8 @@ class Explorer:
                     self.add("O-segment", f"{self.spec.name}: `{p.name}` (by {p.func}) swallows a level accumulator",
                              f"`{p}` reduces over an accumulator", wit)
                 return ACC
+            if span_multi and getattr(self.spec, "one_segment_statements", False):
+                span_multi = False          # the statement is a single declaration: there is no neighbour to merge with
             if span_multi:
                 allowed = getattr(self.spec, "span_ok", {}).get(p.name)
                 kset = set()
@@ -490,14 +496,14 @@ class Explorer:
         spec = self.spec
 
         class Cfg:
-            __slots__ = ("S", "flags", "stack", "inst", "parent", "word")
+            __slots__ = ("S", "flags", "stack", "inst", "parent", "word", "step")
 
         def ident(S, flags, stack, inst):
             return (S, flags, tuple((e.state, e.summ.key() if isinstance(e.summ, Summ) else e.summ) for e in stack), inst)
 
         start = Cfg()
         start.S, start.flags, start.stack, start.inst = spec.eclose({spec.start}), self.lm.start, (Entry(0, None, None, "$"),), 0
-        start.parent, start.word = None, None
+        start.parent, start.word, start.step = None, None, None
         seen = {ident(start.S, start.flags, start.stack, start.inst)}
         q = collections.deque([start])
         while q:
@@ -524,8 +530,12 @@ class Explorer:
                     final = r[0][-1].val
                     if len(self.samples) < 12:
                         self.samples.append({"witness": self.render(ctx_words), "result": _short(final)})
-                    if self.oracle is not None and hasattr(self.oracle, "__self__") and hasattr(self.oracle.__self__, "on_accept"):
-                        self.oracle.__self__.on_accept(self, final, ctx_words)
+                    if self.on_accept is not None:
+                        steps, c = [], cur
+                        while c.parent is not None:
+                            steps.append(c.step)
+                            c = c.parent
+                        self.on_accept(self, final, list(reversed(steps)))
                 elif r != "RAISED":
                     self.add("O-accept", f"{spec.name}: end of statement shifts instead of accepting", "", self.render(ctx_words))
             for (w, t, ys) in moves.values():
@@ -576,6 +586,7 @@ class Explorer:
                     seen.add(idn)
                     n = Cfg()
                     n.S, n.flags, n.stack, n.inst, n.parent, n.word = nS, lr.flags, nstack, ninst, cur, w
+                    n.step = (w, t, lr.value)
                     q.append(n)
         return self
 
